@@ -18,7 +18,10 @@ N_SHARDS = 64
 
 
 USM_INSTANCE = (1, 3, 6, 1, 6, 3, 15, 1, 1, 1, 0)  # usmStatsUnsupportedSecLevels.0, readable on every v3 agent
-U3 = sorted(scopes.U + [USM_INSTANCE])
+# ... followed (indices 16..20, so that recorded cases keep their meaning) by
+# the other five usmStats counters - the OIDs Report PDUs carry; a conformant
+# agent serves them in ordinary Responses too
+U3 = sorted(scopes.U + [USM_INSTANCE]) + [(1, 3, 6, 1, 6, 3, 15, 1, 1, k, 0) for k in range(2, 7)]
 
 
 def bounds(tier):
@@ -228,7 +231,7 @@ def meta(tier):
     b = bounds(tier)
     return {
         "level": "model_checking",
-        "rule": "one execution per configuration (database subset of the 15-instance universe with |DB| <= %d) x (every ordered list of 1..3 pairwise disjoint roots from an 9-root menu) x API (multiwalk; walk for single roots; PyWrapper variants for |DB| <= %d); v2c, and SNMPv3 %r on the universe extended by a usmStats counter instance; states = (configuration, exchange index) pairs, transitions = request/response exchanges; non-trivial = at least two requests and at least one instance yielded"
+        "rule": "one execution per configuration (database subset of the 15-instance universe with |DB| <= %d) x (every ordered list of 1..3 pairwise disjoint roots from an 9-root menu) x API (multiwalk; walk for single roots; PyWrapper variants for |DB| <= %d); v2c, and SNMPv3 %r on the universe extended by the six usmStats counter instances; states = (configuration, exchange index) pairs, transitions = request/response exchanges; non-trivial = at least two requests and at least one instance yielded"
         % (b["max_db"], b["py_max_db"], b["v3"]),
         "exhaustive": True,
         "bounds": b,
